@@ -198,7 +198,7 @@ leg.extra.update(rounds_reusing_previous_code_address=int(reused))
 
 # the other direction: a FOREIGN thread (not started by Trio) inside from_thread.run(afn, trio_token=...) continues into the
 # system task serving it, and on through every further to_thread / reentrant from_thread alternation
-def foreign_thread_scenario(depth):
+def foreign_thread_scenario(depth, observer="trio-thread"):
     ev = threading.Event(); arrived = threading.Event(); out = {}
     async def in_trio(d):
         if d == 0:
@@ -214,9 +214,19 @@ def foreign_thread_scenario(depth):
         t = threading.Thread(target=external, args=(trio.lowlevel.current_trio_token(),), daemon=True); t.start()
         while not arrived.is_set(): await trio.sleep(0.001)
         await trio.testing.wait_all_tasks_blocked()
-        with warnings.catch_warnings(record=True) as w:
-            warnings.simplefilter("always")
-            st = stackscope.extract(t)
+        res = {}
+        def observe():
+            with warnings.catch_warnings(record=True) as w_:
+                warnings.simplefilter("always")
+                res["st"] = stackscope.extract(t)
+            res["w"] = w_
+        if observer == "trio-thread":
+            observe()
+        else:
+            # the extraction is made by a thread that has nothing to do with Trio (a debugger / watchdog thread)
+            th = threading.Thread(target=observe); th.start()
+            while th.is_alive(): await trio.sleep(0.001)
+        st, w = res["st"], res["w"]
         out["ds"] = [(f.funcname, f.pyframe.f_locals.get("d")) for f in st.frames if f.funcname in ("in_trio", "in_thread")]
         out["vis"] = [f.funcname for f in st.frames if not f.hide]; out["err"] = st.error; out["w"] = [str(x.message)[:60] for x in w]
         raise KeyboardInterrupt          # tear the run down (the worker threads are daemons of Trio's cache)
@@ -225,10 +235,10 @@ def foreign_thread_scenario(depth):
     return out
 
 import trio.testing
-for d in range(0, 4 if THOROUGH else 3):
-    key = ("foreign-thread-hops", d)
+for d, observer in [(d_, o_) for d_ in range(0, 4 if THOROUGH else 3) for o_ in ("trio-thread", "other-thread")]:
+    key = ("foreign-thread-hops", d, observer)
     leg.case(key, True)
-    o = foreign_thread_scenario(d)
+    o = foreign_thread_scenario(d, observer)
     want = [x for k in range(d, 0, -1) for x in (("in_trio", k), ("in_thread", k))] + [("in_trio", 0)]
     if o.get("ds") != want or o.get("err") is not None or o.get("w") or (o.get("vis") or [None])[0] != "external":
         leg.violation(key, f"foreign thread in from_thread.run, alternation depth {d}: chain {o.get('ds')} != {want}; visible {o.get('vis')}; "
